@@ -55,7 +55,7 @@ class Check:
     design_ref = 'DESIGN.md section 4'
     nshards_quick = 32
     nshards_thorough = 96
-    budget_quick = 150      # seconds of wall clock per shard (cap, not target)
+    budget_quick = 450      # seconds of wall clock per shard (cap, not target; a quick run takes 10-60 s on an idle machine)
     budget_thorough = 1500
 
     def setup(self, tier):
